@@ -27,8 +27,10 @@ def main():
         {"harness": "c19-metrics", "budget_s": 40, "label": "metrics log + rounded prometheus counters after n in {0,1,7,8,9,16,17} events of each of 7 kinds driven through the real IPC calls (virtual time)"},
         {"harness": "c19-ips", "cfg": {"maxlen": "2" if tier == "quick" else "3"}, "budget_s": 40 if tier == "quick" else 300,
          "label": "unique address figures: all poll sequences of length <= %s over 3 addresses x 5 proxy types x 2 NAT types with the repository's test geoip data" % ("2" if tier == "quick" else "3")},
+        {"harness": "c19-ips", "cfg": {"maxlen": "2" if tier == "quick" else "3", "conc": "1"}, "budget_s": 40 if tier == "quick" else 300,
+         "label": "unique address figures when the polls of a period arrive together (overlapping handlers; all multisets of <= %s polls over 3 addresses x 5 types): all interleavings up to Mazurkiewicz equivalence (DPOR + sleep sets)" % ("2" if tier == "quick" else "3")},
     ]
-    summary, tot, samples, exh = sched.run_passes(rep, binary, passes, 130 if tier == "quick" else 800)
+    summary, tot, samples, exh = sched.run_passes(rep, binary, passes, 170 if tier == "quick" else 1100)
     try:
         eb = enumlib.build("broker-enum", "broker", files("broker_enum"))
         res = enumlib.run(eb, "TestVerifEnumC19Bin", tier, 60)
